@@ -72,12 +72,27 @@ class FS:
         s.has_mcsum=bool(s.rocompat&R_METADATA_CSUM); s.has_gdcsum=s.has_mcsum or bool(s.rocompat&R_GDT_CSUM)
         s.seed=(g(0x270,'<I') if s.incompat&I_CSUM_SEED else crc32c(0xffffffff,s.uuid))
         if s.bpg==0 or s.ipg==0: raise Unsupported("zero geometry")
+        if s.log_bs>6: raise Unsupported("block size")
+        fsize=os.fstat(s.f.fileno()).st_size-offset
+        # implausible geometry is the superblock checker's business (e2fsck refuses such images); the reader gives no verdict
+        if s.blocks*s.bs > fsize + s.bs or s.blocks<=s.first_data: raise Unsupported("blocks_count beyond the device")
+        if s.bpg>8*s.bs or s.ipg>8*s.bs or s.cpg>8*s.bs or s.bpg%8 or s.ipg%8: raise Unsupported("group geometry")
+        if s.rocompat&R_BIGALLOC and (s.log_cs<s.log_bs or s.log_cs-s.log_bs>16): raise Unsupported("cluster size")
         s.ngroups=(s.blocks - s.first_data + s.bpg-1)//s.bpg
+        if s.ngroups>65536 or s.inodes!=s.ngroups*s.ipg: raise Unsupported("inode/group count mismatch")
+        if s.isize<128 or s.isize>s.bs or s.isize&(s.isize-1): raise Unsupported("inode size")
+        if s.first_data>1: raise Unsupported("first data block")
+        if s.first_ino<11 or s.first_ino>s.inodes: raise Unsupported("first_ino")
+        s.budget=4000000
         s.dpb=s.bs//s.desc; s.desc_blocks=(s.ngroups+s.dpb-1)//s.dpb
         s.itb=(s.ipg*s.isize + s.bs-1)//s.bs
         if s.incompat&(I_ENCRYPT|I_CASEFOLD|I_JOURNAL_DEV): raise Unsupported("feature")
         s._gd=None; s._icache={}
+    def spend(s,n=1):
+        s.budget-=n
+        if s.budget<0: raise Unsupported("work budget exceeded")
     def rb(s,b,n=1):
+        s.spend(8*n)
         s.f.seek(s.off+b*s.bs); d=s.f.read(n*s.bs)
         if len(d)<n*s.bs: d+=bytes(n*s.bs-len(d))
         return d
@@ -209,7 +224,7 @@ def walk_blockmap(fs, ino, F, on_meta):
         if not p: return lb+span
         if not ok(p,'indirect block'): return lb+span
         on_meta(p)
-        arr=struct.unpack('<%dI'%apb,fs.rb(p))
+        arr=struct.unpack('<%dI'%apb,fs.rb(p)); fs.spend(apb)
         for q in arr:
             if level==1:
                 if q and ok(q,'block'): out.append((lb,q,1,False))
@@ -395,6 +410,7 @@ class Checker:
             clusters=set()
             for lb,pb,ln,un in ext:
                 if not (fs.first_data<=pb and pb+ln<=fs.blocks): F('range','ino %d extent [%d+%d] out of range'%(ino,pb,ln)); continue
+                fs.spend(ln)
                 for k in range(ln):
                     b=pb+k
                     if fs.cratio>1:
@@ -483,7 +499,8 @@ class Checker:
                 if child not in inuse: F('dirent','dir %d entry %r -> unused inode %d'%(ino,name,child)); continue
                 refs[child]+=1
                 C=inuse[child]
-                if fs.incompat&I_FILETYPE and ft!=FT.get(C.fmt,0): F('dirent','dir %d entry %r filetype %d but inode mode %o'%(ino,name,ft,C.mode))
+                # file_type 0 (EXT2_FT_UNKNOWN) is legal: readers then use the inode's mode
+                if fs.incompat&I_FILETYPE and (ft&7) and (ft&7)!=FT.get(C.fmt,0): F('dirent','dir %d entry %r filetype %d but inode mode %o'%(ino,name,ft,C.mode))
                 if C.is_dir():
                     subdirs[ino]+=1
                     if parent.get(child) is not None: F('links','directory %d has two parents'%child)
@@ -534,8 +551,10 @@ class Checker:
         ext=s.maps.get(I.ino,[])
         lmap={}
         for lb,pb,ln,un in ext:
+            fs.spend(ln)
             for k in range(ln): lmap[lb+k]=pb+k
         nblocks=(I.size+fs.bs-1)//fs.bs
+        fs.spend(nblocks)
         iseed=fs.iseed(I.ino,I.gen)
         dx=None
         for lb in range(nblocks):
